@@ -83,8 +83,8 @@ class BUnit:
         self.branch_pos = 0
         self.path = []
         def BR(c):
-            if isinstance(c, bool):
-                return c
+            if isinstance(c, (bool, int)):
+                return bool(c)
             # symbolic branch: follow the scripted decision, record the path condition
             i = self.branch_pos
             self.branch_pos += 1
@@ -129,12 +129,12 @@ class BUnit:
         """transliterate a member function and attach it to python class `cls` (overloads by arity).
         implicit-this rule: listed data members -> self.X, listed sibling methods f( -> self.f("""
         def pre(body):
+            if extra_pre:
+                body = extra_pre(body)
             for m in members:
                 body = re.sub(r"(?<![\w.>])" + re.escape(m) + r"\b", "self." + m, body)
             for f in methods:
                 body = re.sub(r"(?<![\w.>:])" + re.escape(f) + r"\s*\(", "self." + f + "(", body)
-            if extra_pre:
-                body = extra_pre(body)
             return body
         c = cut_function(path, anchor, name, occurrence=occurrence)
         names = params_of(strip_comments(c.header))
@@ -165,10 +165,12 @@ class BUnit:
         return p
 
     # ---- obligations ----
-    def prove_eq(self, name, lhs, rhs, side, unit, function=None, timeout_ms=20000, extra_path=()):
+    def prove_eq(self, name, lhs, rhs, side, unit, function=None, timeout_ms=20000, extra_path=(), minimal=False):
         """one obligation per element: lhs[i] == rhs[i] under side conditions"""
         second = self.ctx.tier == "thorough"
         out = []
+        if not minimal:
+            side = self._with_env(side)
         for i, g in S.eq_all(lhs, rhs):
             nm = "%s[%d]" % (name, i)
             r = S.prove(g, side=list(side) + list(extra_path), timeout_ms=timeout_ms, name=nm,
@@ -177,7 +179,17 @@ class BUnit:
             out.append(r)
         return out
 
-    def prove_bool(self, name, goal, side, unit, function=None, timeout_ms=20000):
+    def _with_env(self, side):
+        """the side conditions introduced by the shim so far (c^2+s^2=1, sqrt definitions) always
+        belong to the hypotheses, otherwise a counter-model may violate the meaning of sqrt/cos/sin"""
+        side = list(side)
+        have = set(c.get_id() for c in side)
+        return side + [c for c in S.ENV.side if c.get_id() not in have]
+
+    def prove_bool(self, name, goal, side, unit, function=None, timeout_ms=20000, minimal=False):
+        """minimal=True: use exactly the given hypotheses (a goal proved from fewer hypotheses is still proved)"""
+        if not minimal:
+            side = self._with_env(side)
         r = S.prove(goal, side=list(side), timeout_ms=timeout_ms, name=name,
                     outdir=os.path.join(self.ctx.out, "smt2"), second_opinion=self.ctx.tier == "thorough")
         self.record(name, unit, r, function, "lemma %s" % name)
